@@ -3,7 +3,7 @@ import random
 import numpy as np
 import vlib
 
-THEOREMS = []          # filled in from Libvna.Props.C04 (hand theorems)
+THEOREMS = ['Libvna.C04.nport_ztoy_exact']          # hand theorems of Libvna.Props.C04
 
 NFUNCS = {'vnaconv_stozn': ('s', 'z', True), 'vnaconv_stoyn': ('s', 'y', True), 'vnaconv_ztosn': ('z', 's', True),
           'vnaconv_ytosn': ('y', 's', True), 'vnaconv_ztoyn': ('z', 'y', False), 'vnaconv_ytozn': ('y', 'z', False),
